@@ -72,8 +72,9 @@ def block_program(rng):
                            "fs.append(func() { %s += 1; return %s })" % (v, v),
                            "fs.append(func() { %s = %s * 2 + 1; return %s })" % (v, v, v)])
 
+    tops = []               # top-level functions that the body shadows with nested named functions
     for _ in range(2 + rng.below(5)):
-        c = rng.below(7)
+        c = rng.below(10)
         v = fresh()
         k = rng.below(50)
         if c == 0:
@@ -95,14 +96,32 @@ def block_program(rng):
             w = fresh()
             body.append("if p >= 0 { %s := %d; %s } else { %s := %d; %s }" % (v, k, capture(v), w, k + 1, capture(w)))
             count[0] -= 1                                                                          # only one branch runs
-        else:
+        elif c == 6:
             w = fresh()
             body.append("%s, %s := [p, %d]; %s" % (v, w, k, capture(w)))
+        elif c == 7:
+            # a declaration that shadows an outer variable with a function literal that uses that name: the literal still
+            # means the OUTER variable (the new one does not exist yet while its initializer is compiled)
+            body.append("%s := p + %d; if p >= 0 { %s := func() { return %s + 1 }; fs.append(%s) }" % (v, k, v, v, v))
+            count[0] += 1
+        elif c == 8:
+            # ... the same with a parameter-like function value (decorator idiom)
+            body.append("%s := func(x) { return x + %d }; if p >= 0 { %s := func(x) { return %s(x) * 2 }; fs.append(func() { return %s(p) }) }" % (v, k, v, v, v))
+            count[0] += 1
+        else:
+            # a closure that calls a TOP-LEVEL function, followed - later in the same body - by a nested function statement of
+            # the same name: the earlier closure keeps meaning the top-level function, a later one means the nested one
+            h = "h%d" % (len(tops) + 1)
+            tops.append("func %s() { return %d }" % (h, 1000 + k))
+            body.append("fs.append(func() { return %s() })" % h)
+            body.append("func %s() { return p + %d }" % (h, k))
+            body.append("fs.append(func() { return %s() + 1 })" % h)
+            count[0] += 2
     if count[0] == 0:
         v = fresh()
         body.append("if p >= 0 { %s := p; %s }" % (v, capture(v)))
     body.append("return fs")
-    lines = ["func build(p) { " + "; ".join(body) + " }", "fs := build(%d)" % (1 + rng.below(5)), "gs := build(%d)" % (7 + rng.below(5)), "r := []"]
+    lines = tops + ["func build(p) { " + "; ".join(body) + " }", "fs := build(%d)" % (1 + rng.below(5)), "gs := build(%d)" % (7 + rng.below(5)), "r := []"]
     calls = ["fs[%d]()" % i for i in range(count[0])] * 2 + ["gs[%d]()" % i for i in range(count[0])]
     for i in range(len(calls) - 1, 0, -1):
         j = rng.below(i + 1)
